@@ -48,7 +48,14 @@ def data_chars(text):
     return chars
 
 
-def pick_terms(rng, text, charset='B', ctrl_ele=False, fmt_ele=False):
+def isa_version(text):
+    (s0, e0, c0), pieces = ref_token.tokenize(text)
+    if pieces and pieces[0].sid == 'ISA' and len(pieces[0].elements) >= 12:
+        return pieces[0].elements[11][0]
+    return None
+
+
+def pick_terms(rng, text, charset='B', ctrl_ele=False, fmt_ele=False, force_sub=None):
     """ctrl_ele: take the element separator from the characters Python's str methods treat as whitespace (FS/GS/RS/US, tab)"""
     used = data_chars(text)
     segc = [c for c in SEG_CANDS if c not in used]
@@ -60,8 +67,13 @@ def pick_terms(rng, text, charset='B', ctrl_ele=False, fmt_ele=False):
         # characters that mean something to str.format / % formatting, should a message ever be formatted twice
         elec = [c for c in ['{', '}', '%'] if c not in used and c != seg_t] or elec
     ele_t = rng.choice(elec)
-    subc = [c for c in (SUB_E if charset == 'E' else SUB_B) if c not in used and c not in (seg_t, ele_t)]
+    pool = list(SUB_E if charset == 'E' else SUB_B)
+    if charset == 'E' and isa_version(text) == '00501':
+        pool += ['^', '`']          # the 5010 extended set has two more characters (free when the header names another repetition separator)
+    subc = [c for c in pool if c not in used and c not in (seg_t, ele_t)]
     sub_t = rng.choice(subc)
+    if force_sub is not None and force_sub in subc:
+        sub_t = force_sub
     # a line-break character as terminator may itself be followed by the other one (a CR LF file whose declared terminator is the CR)
     eol = rng.choice(EOLS) if seg_t not in '\r\n' else rng.choice(['', '', '\n' if seg_t == '\r' else '\r'])
     return seg_t, ele_t, sub_t, eol
